@@ -334,7 +334,7 @@ class Prop(PropBase):
         return specs
 
     def _arg(self, rng, v):
-        k = rng.choice(["int", "int", "int", "npint", "npint32"])
+        k = rng.choice(["int", "int", "npint", "npint32", "narrow", "narrow"])
         return {"k": k, "v": int(v)}
 
     def cases(self, rng, tier):
@@ -401,7 +401,14 @@ class Prop(PropBase):
     def _mk(self, a):
         np = self.np
         k, v = a["k"], a["v"]
+        def narrow():
+            # the narrowest NumPy integer type holding the value: arithmetic on it (2*offset, offset+n) wraps or promotes early
+            for t in (np.int8, np.uint8, np.int16, np.uint16, np.int32, np.uint32):
+                if np.iinfo(t).min <= v <= np.iinfo(t).max:
+                    return t(v)
+            return np.int64(v)
         return {"int": lambda: int(v), "npint": lambda: np.int64(v), "npint32": lambda: np.int32(v), "bool": lambda: bool(v),
+                "narrow": narrow,
                 "float": lambda: float(v), "none": lambda: None, "str": lambda: str(v)}[k]()
 
     def _vals(self, arr):
@@ -610,7 +617,7 @@ class Prop(PropBase):
     # ------------------------------------------------------------------ model
     @staticmethod
     def _marg(a):
-        return f"i:{int(a['v'])}" if a["k"] in ("int", "npint", "npint32", "bool") else "x"
+        return f"i:{int(a['v'])}" if a["k"] in ("int", "npint", "npint32", "narrow", "bool") else "x"
 
     def model_requests(self, case, code):
         if "ctor_err" in code:
@@ -869,7 +876,7 @@ class Prop(PropBase):
             if "warn_race" in o:
                 continue
             if op[0] == "read":
-                ok_kind = all(x["k"] in ("int", "npint", "npint32", "bool") for x in (op[1], op[2]))
+                ok_kind = all(x["k"] in ("int", "npint", "npint32", "narrow", "bool") for x in (op[1], op[2]))
                 ov, nv = int(op[1]["v"]), int(op[2]["v"])
                 valid = ok_kind and ov >= 0 and nv >= 0 and ov + nv <= L
                 if not valid:
